@@ -103,7 +103,7 @@ Ltac hleaf :=
 
 Ltac hcrush :=
   repeat (match goal with
-  | |- context [match ?s with [] => _ | _ :: _ => _ end] => is_var s; destruct s as [|[| ? | ? | | ? | ] ?]
+  | |- context [match ?s with [] => _ | _ :: _ => _ end] => is_var s; destruct s as [|[| ? | ? | | ? | | ] ?]
   | |- context [if ?b then _ else _] => destruct b eqn:?
   end; cbn beta iota); hleaf.
 
@@ -124,7 +124,7 @@ Proof.
                 | ABearer _ => True
                 end) by (destruct a1; auto).
   clear H1.
-  destruct script as [|[| hdr | id | | sid | ] script1]; try (hleaf; fail).
+  destruct script as [|[| hdr | id | | sid | | ] script1]; try (hleaf; fail).
   destruct (parse hdr) as [[| |] ps] eqn:Ech; try (hleaf; fail).
   - unfold fetch_basic, final_send. hcrush.
   - set (scopes := if is_empty (get_param s_scope ps) then _ else _).
